@@ -462,6 +462,11 @@ func runC12(cx *Ctx, r *Report) {
 				ents = append(ents, e)
 			}
 		}
+		if n := cx.keyArgsCrossedRule(r, ents, "G16-import-key-args-not-crossed"); n < 20 {
+			r.toolErr("G16: only %d constructor-built keys seen on the genesis import paths (≥20 confirmed)", n)
+		} else {
+			r.ok("G16-import-key-args-not-crossed", "scan", "", fmt.Sprintf("%d constructor-built keys on the import paths: no two same-typed parameters take each other's namesake field", n))
+		}
 		if n := cx.crossedFieldsRule(r, ents, "G14-import-fields-not-crossed"); n < 5 {
 			r.toolErr("only %d records assembled on import paths were inspected for crossed fields (≥5 confirmed)", n)
 		}
@@ -2282,3 +2287,74 @@ func (cx *Ctx) transPrimKindsOfCall(c *ssa.Call) map[string]bool {
 	}
 	return cx.transPrimKinds(f)
 }
+
+// keyArgsCrossedRule (G16): a key built by the module's constructor K(p1, …, pn) from the
+// fields of a record - GetOwnerServiceBindingKey(owner, serviceName, provider) from
+// binding.Owner, binding.ServiceName, binding.Provider - does not hand the field that is
+// the namesake of one parameter to another parameter while that one receives this
+// parameter's namesake (owner ← .Provider, provider ← .Owner): two same-typed positional
+// arguments in the wrong order. The entry is then written under (or looked up by) the
+// other party's key; a twin path (message handler vs. genesis import) that builds the
+// same key correctly makes the two chains answer index queries differently.
+func (cx *Ctx) keyArgsCrossedRule(r *Report, entries []Entry, rule string) int {
+	n := 0
+	seen := map[string]bool{}
+	tail := func(t *Term) string {
+		for t != nil {
+			switch {
+			case t.Op == "field":
+				return strings.ToLower(t.Name)
+			case t.Op == "call" && (t.Name == "addr" || t.Name == "str") && len(t.Args) == 1:
+				t = t.Args[0]
+			case t.Op == "extract" && len(t.Args) == 1:
+				t = t.Args[0]
+			default:
+				return ""
+			}
+		}
+		return ""
+	}
+	cx.forEachEvent(entries, nil, func(e *Entry, w *Walker, ev *Event) {
+		if !strings.HasPrefix(ev.Kind, "store.") || len(ev.Args) == 0 {
+			return
+		}
+		for _, a := range ev.Args {
+			k := findSub(a, func(t *Term) bool {
+				if t.Op != "call" || len(t.Args) < 2 {
+					return false
+				}
+				f := cx.fnByTermName(t.Name)
+				return f != nil && strings.Contains(funcPkgPath(f), "/types") && len(f.Params) == len(t.Args)
+			})
+			if k == nil {
+				continue
+			}
+			f := cx.fnByTermName(k.Name)
+			key := entryKey(e) + "|" + ev.Kind + "|" + k.Name + "|" + cx.P.Pos(ev.Site.Pos())
+			if seen[key] {
+				continue
+			}
+			seen[key] = true
+			n++
+			var crossed []string
+			for i := range k.Args {
+				for j := i + 1; j < len(k.Args); j++ {
+					pi, pj := strings.ToLower(f.Params[i].Name()), strings.ToLower(f.Params[j].Name())
+					ti, tj := tail(k.Args[i]), tail(k.Args[j])
+					if ti == "" || tj == "" || pi == pj || !types.Identical(f.Params[i].Type(), f.Params[j].Type()) {
+						continue
+					}
+					if ti == pj && tj == pi {
+						crossed = append(crossed, f.Params[i].Name()+" ← ."+k.Args[i].LooseString()[strings.LastIndex(k.Args[i].LooseString(), ".")+1:]+", "+f.Params[j].Name()+" ← ."+k.Args[j].LooseString()[strings.LastIndex(k.Args[j].LooseString(), ".")+1:])
+					}
+				}
+			}
+			if len(crossed) > 0 {
+				r.violate(rule, entryKey(e)+"|"+k.Name, ev.Pos(cx), "the key "+trunc(k.LooseString(), 200)+" of a "+ev.Kind+" on chain "+ev.Fr.String()+" gives each of two parameters of "+k.Name+" the other one's namesake field ("+strings.Join(crossed, "; ")+"): the entry lands under the other party's key, and lookups through this index - on this path only - answer for the wrong party")
+			}
+		}
+	})
+	return n
+}
+
+func (cx *Ctx) fnByTermName(name string) *ssa.Function { return cx.funcByTermName(name) }
